@@ -236,6 +236,17 @@ theorem txt_bytes : ∀ {r : Bytes}, Txt r → ∀ c ∈ r, isWordByteB c = true
     rcases List.mem_append.mp hc with h | h
     · exact Or.inl (List.all_eq_true.mp (goodWord_bytes hw).1 c h)
     · exact txt_bytes hr c h
+  | _, .dec (w := w) hw _ hr, c, hc => by
+    rcases List.mem_append.mp hc with h | h
+    · obtain ⟨d1, d2, rfl, ⟨_, hall1⟩, ⟨_, hall2⟩⟩ := hw
+      rcases List.mem_append.mp h with h | h
+      · have := List.all_eq_true.mp hall1 c h
+        exact Or.inl (by simp [isWordByteB, this])
+      · rcases List.mem_cons.mp h with rfl | h
+        · exact Or.inr (Or.inr (Or.inr rfl))
+        · have := List.all_eq_true.mp hall2 c h
+          exact Or.inl (by simp [isWordByteB, this])
+    · exact txt_bytes hr c h
   | _, .var (vw := vw) hv _ hr, c, hc => by
     rcases List.mem_cons.mp hc with rfl | h
     · exact Or.inr (Or.inr (Or.inl rfl))
